@@ -31,7 +31,7 @@ def strategy(tier):
     return S.scenarios(PROFILE)
 
 
-def oracle(ix, res):
+def oracle(ix, res, prefix='C01', focus=None):
     nontrivial = False
     for sp in ix.scheds():
         sid = sp['id']
@@ -43,15 +43,17 @@ def oracle(ix, res):
             if not enters:
                 continue
             first = enters[0]
+            if focus is not None and not focus(sid, mid):
+                continue
             if begin is None or begin['seq'] > first['seq']:
-                res.fail('C01:member-before-scheduler-begin',
+                res.fail(prefix + ':member-before-scheduler-begin',
                          "%s entered although the run of its scheduler %s had not begun"
                          % (mid, sid), context(ix))
             exits = []
             for r in req[mid]:
                 ex = ix.normal_exit(r)
                 if ex is None or ex['seq'] > first['seq']:
-                    res.fail('C01:start-before-requirement',
+                    res.fail(prefix + ':start-before-requirement',
                              "%s entered at seq %d (t=%s) before its requirement %s had "
                              "finished (%s)" % (mid, first['seq'], first['t'], r,
                                                 'exit at seq %d t=%s' % (ex['seq'], ex['t'])
